@@ -323,3 +323,4 @@ impl<'a> AsMut<[u8]> for SliceBuffer<'a> {
         &mut self.slice[0..self.len]
     }
 }
+#[cfg(rjrssync_verif)] pub(crate) mod verif_hooks { include!(concat!(env!("RJRSSYNC_VERIF_HARNESS"), "/hooks_encrypted_comms.rs")); }
